@@ -144,6 +144,8 @@ func carriers() []carrierFn {
 		{"map", anyV, viaCarrier(carrier.Map)},
 		{"map-iface", anyV, viaCarrier(carrier.MapIface)},
 		{"slice-map", anyV, viaCarrier(carrier.SliceMap)},
+		{"map-25-entries", anyV, viaCarrier(carrier.MapLarge)},
+		{"struct-tag-field-70", func(v reflect.Value) bool { return true }, nil}, // filled below (needs TagOK)
 		{"url-single-raw", strV, u(func(v string) string { return "http://h/p?k=" + v })},
 		{"url-first-raw", strV, u(func(v string) string { return "http://h/p?k=" + v + "&a=1&z=zz" })},
 		{"url-middle-raw", strV, u(func(v string) string { return "http://h/p?a=1&k=" + v + "&z=zz" })},
@@ -195,6 +197,20 @@ func run(c *runner.Ctx) {
 		return fmt.Errorf("%s", s)
 	}
 	cars[1].run = tagRun
+	for i := range cars {
+		if cars[i].name == "struct-tag-field-70" {
+			cars[i].run = func(v reflect.Value, rl string) error {
+				if !carrier.TagOK(rl) {
+					return tagRun(v, rl)
+				}
+				s, isNil := carrier.Validate(carrier.StructTagWide, v, rl)
+				if isNil {
+					return nil
+				}
+				return fmt.Errorf("%s", s)
+			}
+		}
+	}
 	// the same tagged type again, right after a call that overrode the field's rule for that call only
 	cars = append(cars, carrierFn{"struct-tag-after-override", anyV, func(v reflect.Value, rl string) error {
 		if !carrier.TagOK(rl) {
